@@ -366,7 +366,7 @@ func genC20(t *rapid.T) C20Case {
 }
 
 func TestC20(t *testing.T) {
-	p := Prop[C20Case]{ID: "C20", Sub: "process", Gen: genC20, Run: runC20, Quick: 100, Thorough: 4000}
+	p := Prop[C20Case]{ID: "C20", Sub: "process", Gen: genC20, Run: runC20, Quick: 100, Thorough: 600}
 	// every type, typed null and container shape x every format x both input routes
 	EnumerateSharded(t, p, "types-x-formats", func(shard, nshards int, yieldAll func(C20Case) bool) {
 		n := 0
